@@ -439,6 +439,11 @@ func firstLetterToBox(context *layoutContext, box Box, skipStack tree.ResumeStac
 			}
 		}
 	} else if bo.ParentT.IsInstance(child) {
+		if child.Box().PseudoType == "first-letter" {
+			// the letter got its box when the line was laid out before (the boxes are
+			// changed in place): wrapping it again would nest one more box at every layout
+			return skipStack
+		}
 		if skipStack != nil {
 			_, childSkipStack = skipStack.Unpack()
 		} else {
